@@ -59,9 +59,14 @@ def big_seeds(rng):
     parts = b''.join(b'--B\nContent-Type: text/plain\n\npart %d\n' % i for i in range(rng.choice([17, 64, 300])))
     out.append(b'To: a@b\nContent-Type: multipart/mixed; boundary="B"\n\n' + parts + b'--B--\n')
     deep = b'leaf\n'
-    for d in range(rng.choice([4, 5, 6, 9])):
+    levels = rng.choice([4, 5, 6, 9])
+    wide = rng.randrange(levels)              # one level with 17 parts (forces the attachment table to grow), the others 1-2
+    for d in range(levels):
         b = b'N%d' % d
-        inner = b''.join(b'--' + b + b'\n' + deep for _ in range(rng.choice([1, 2, 17])))
+        n = 17 if d == wide else rng.choice([1, 2])
+        if len(deep) * n > 60000:
+            n = 1
+        inner = b''.join(b'--' + b + b'\n' + deep for _ in range(n))
         deep = b'Content-Type: multipart/mixed; boundary="' + b + b'"\n\n' + inner + b'--' + b + b'--\n'
     out.append(b'To: a@b\n' + deep)
     out.append(b'Subject: ' + b'\n\t'.join(rng.choice(msggen.WORDS) for _ in range(400)) + b'\nTo: a@b\n\nbody\n')
